@@ -379,13 +379,13 @@ func scenC03(r *Run) {
 			launch(i, fr)
 			recs = append(recs, fr)
 		}
-		r.Drive(r.AllTasksDone, hugeHorizon, 200000)
+		r.Drive(r.AllTasksDone, hugeHorizon, 60000)
 	} else {
 		for i, fr := range plan {
 			fr.connFrom = len(w.Conns)
 			launch(i, fr)
 			recs = append(recs, fr)
-			r.Drive(func() bool { return fr.task.Done }, hugeHorizon, 100000)
+			r.Drive(func() bool { return fr.task.Done }, hugeHorizon, 30000)
 			fr.connTo = len(w.Conns)
 		}
 	}
